@@ -695,3 +695,27 @@ pub fn digest_cmd(args: &[String]) -> i32 {
     }
     0
 }
+
+/// `sim selfreplay <prop> <seed> <from> <count>`: generate each run, replay its recorded trace
+/// with no PRNG, and compare digests, signatures and verdicts (the replay half of the
+/// determinism proof). Prints one line per mismatch; exit 1 if any.
+pub fn selfreplay_cmd(args: &[String]) -> i32 {
+    let prop = &args[0];
+    let seed: u64 = args[1].parse().unwrap();
+    let from: u64 = args[2].parse().unwrap();
+    let count: u64 = args[3].parse().unwrap();
+    let mut bad = 0;
+    for idx in from..from + count {
+        let rs = crate::rng::run_seed(seed, prop, idx);
+        let (g, suffix, _shape) = props::swarm(prop, rs);
+        let a = run::run_generated(rs, &g, &ecfg(), suffix);
+        let b = run::run_replay(&a.trace, &ecfg());
+        let same = a.digest == b.digest && a.sig == b.sig && a.viol.as_ref().map(|v| &v.oracle) == b.viol.as_ref().map(|v| &v.oracle) && a.trace == b.trace;
+        if !same {
+            bad += 1;
+            println!("MISMATCH {prop} {idx}: generated digest {:016x} sig {:016x} viol {:?}; replayed digest {:016x} sig {:016x} viol {:?}; trace equal {}", a.digest, a.sig, a.viol.as_ref().map(|v| &v.oracle), b.digest, b.sig, b.viol.as_ref().map(|v| &v.oracle), a.trace == b.trace);
+        }
+    }
+    println!("selfreplay {prop} {from}..{}: {bad} mismatches", from + count);
+    if bad > 0 { 1 } else { 0 }
+}
